@@ -490,6 +490,71 @@ def pipelined_disconnect(report, backend, rng, tag):
         relay.close()
 
 
+def limited_connections(report, backend, rng, tag):
+    """a relay with per-address rate limits for several commands, connections coming and going over a (simulated) long time:
+    every disconnect runs the limiter's cleanup over whatever state the earlier traffic left — also over queues that an earlier
+    cleanup emptied while keeping their address.  Nothing may escape any handler."""
+    from nostr_relay import rate_limiter as rl
+
+    clock = {"t": 1000.0}
+    orig_pc = rl.perf_counter
+    rl.perf_counter = lambda: clock["t"]
+    relay = None
+    try:
+        relay = Relay(backend, rate_limits={"ip": {"EVENT": "5/second", "REQ": "5/second,50/minute", "CLOSE": "5/second"},
+                                            "global": {"EVENT": "100/second"}})
+        conns = []
+        log = []
+        for step in range(rng.randint(8, 14)):
+            clock["t"] += rng.choice([0.0, 0.2, 1.5, 2.0, 30.0, 61.0, 100.0])
+            r = rng.random()
+            live = [c for c in conns if not c.done]
+            if r < 0.3 or not live:
+                c = Conn(relay, remote_addr="10.0.0.%d" % rng.randrange(1, 4))
+                conns.append(c)
+                log.append(("connect", c.remote_addr))
+            elif r < 0.5:
+                c = rng.choice(live)
+                c.send_event(relay.signed_event(KEYS[rng.randrange(3)], kind=1, content="limited %s %d %s" % (backend, step, tag),
+                                                created_at=T0 + 400 + step))
+                log.append(("EVENT", c.remote_addr))
+            elif r < 0.7:
+                c = rng.choice(live)
+                c.send(["REQ", "q%d" % step, {"kinds": [1], "limit": 2}])
+                log.append(("REQ", c.remote_addr))
+            elif r < 0.8:
+                c = rng.choice(live)
+                c.send(["CLOSE", "q0"])
+                log.append(("CLOSE", c.remote_addr))
+            else:
+                c = rng.choice(live)
+                c.close()
+                log.append(("disconnect", c.remote_addr))
+            payload = {"backend": backend, "case": "limited-connections", "log": log}
+            for x in conns:
+                if x.exc is not None:
+                    report.property_failure("%s: %s (%s) escaped a connection handler of a rate-limited relay after %r"
+                                            % (backend, type(x.exc).__name__, x.exc, log[-3:]), payload, None)
+                    x.exc = None
+        for c in conns:
+            if not c.done:
+                c.close()
+        for x in conns:
+            if x.exc is not None:
+                report.property_failure("%s: %s (%s) escaped a connection handler of a rate-limited relay at its disconnect"
+                                        % (backend, type(x.exc).__name__, x.exc), {"backend": backend, "case": "limited-connections", "log": log}, None)
+        if any(v for v in relay.open_subscriptions().values()):
+            report.property_failure("%s: subscriptions survive their connections (rate-limited relay)" % backend,
+                                    {"backend": backend, "case": "limited-connections", "log": log}, None)
+        report.case(("limited", backend, tag, repr(log)[:200]), nontrivial=True,
+                    sample={"case": "limited-connections", "backend": backend, "steps": len(log)})
+        report.count("limited_connection_runs")
+    finally:
+        rl.perf_counter = orig_pc
+        if relay is not None:
+            relay.close()
+
+
 KEYS = []
 
 
@@ -507,7 +572,9 @@ def run(report, tier, seed):
         "100 kB id, 600 filters); with and without NIP-42; after every frame: probe REQ on the same and on a second connection, "
         "periodically a fresh EVENT that must be accepted and pushed to a watcher's two subscriptions; a subscriber that stops reading "
         "while max_limit+12 events match it; clients whose last command(s) and disconnect are buffered together, so that the "
-        "connection ends before its sender or query task has run a step; non-trivial = the frame got an answer")
+        "connection ends before its sender or query task has run a step; a relay with per-address limits for three commands under a "
+        "simulated clock, connections of three addresses coming and going with pauses of 0 s to 100 s (every disconnect runs the "
+        "limiter's cleanup); non-trivial = the frame got an answer")
     report.assumptions += ["quiescence after every frame", "the websocket layer (falcon/uvicorn) is replaced by in-memory callables; "
                            "frame size limits of the real server are not in scope"]
     try:
@@ -517,6 +584,8 @@ def run(report, tier, seed):
             stalled_reader(report, backend)
             for i in range(2 if tier == "quick" else 25):
                 pipelined_disconnect(report, backend, rng, i)
+            for i in range(4 if tier == "quick" else 60):
+                limited_connections(report, backend, rng, i)
         for backend in ("sql", "kv"):
             for auth in ((False,) if tier == "quick" and backend == "kv" else (False, True)):
                 robustness(report, drv, backend, auth, rng, tier)
